@@ -178,6 +178,8 @@ def gen_chop(rng: random.Random, kinds=CHOP_KINDS, count: Optional[int] = None) 
     n = count if count is not None else rng.randint(2, 9)
     pres = rng.choice(["c2c_expansion", "start_size", "end_size"]) if rng.random() < 0.5 else "c2c_expansion"
     if kind == "count":
+        if count is None and rng.random() < 0.1:
+            n = 1  # a single layer of cells (2D cases)
         return [{"count": n}]
     if kind == "count_c2c":
         return [{"count": n, "c2c_expansion": rng.choice([0.8, 0.9, 1.1, 1.25]), "preserve": pres}]
@@ -238,10 +240,17 @@ def gen_sandwich(rng: random.Random) -> dict:
     chops = []
     done = set()
     calls = gen_chop(rng, ["count", "count_c2c", "count_total"])
-    for b in outer:
+    conflict = rng.random() < 0.3
+    if conflict and rng.random() < 0.5:
+        calls = [{"count": 1}]
+    for bi, b in enumerate(outer):
         a = next(a for a in range(3) if axis_direction(blocks[b]["rot"], a)[0] == perm[1])
         s = axis_direction(blocks[b]["rot"], a)[1]
-        chops.append({"block": b, "axis": a, "calls": calls if s == 1 else [invert_call(c) for c in reversed(calls)]})
+        mine = calls if s == 1 else [invert_call(c) for c in reversed(calls)]
+        if conflict and bi == 1:
+            # the far outer block demands another count: the un-chopped middle block lies between two conflicting ones
+            mine = [{"count": sum(c["count"] for c in calls) + rng.choice([1, 2, 6])}]
+        chops.append({"block": b, "axis": a, "calls": mine})
         done.add(fam_of[(b, a)])
     for f, mem in members.items():
         if f not in done:
@@ -307,6 +316,95 @@ def gen_edge_conflict(rng: random.Random) -> dict:
     return {"kind": "edge_conflict", "asm": asm, "chops": chops}
 
 
+def gen_pair_conflict(rng: random.Random) -> dict:
+    """Two face-adjacent blocks A, B chopped across their common face with different counts (or equal counts and
+    different gradings), each with one or two un-chopped neighbours attached on other sides; random numberings and
+    insertion order.  Whatever is visited first, the conflict on the common face has to be reported."""
+    perm = rng.sample(range(3), 3)  # row direction, chopped direction, third direction
+
+    def cell(r, c, s):
+        v = [0, 0, 0]
+        v[perm[0]], v[perm[1]], v[perm[2]] = r, c, s
+        return v
+
+    cells = [cell(1, 0, 1), cell(2, 0, 1)]  # A, B
+    buddy = {}
+    # neighbours that share edges of the chopped direction with A resp. B (row ends, or beside in the third direction)
+    for which, (base, away) in enumerate(((1, 0), (2, 3))):
+        cand = [cell(away, 0, 1), cell(base, 0, 0), cell(base, 0, 2)]
+        if rng.random() < 0.5:
+            rng.shuffle(cand)
+        for c in cand[: rng.choice([1, 1, 2])]:
+            buddy[len(cells)] = which
+            cells.append(c)
+    lo = [min(c[d] for c in cells) for d in range(3)]
+    cells = [[c[d] - lo[d] for d in range(3)] for c in cells]
+    dims = [max(c[d] for c in cells) + 1 for d in range(3)]
+    order = list(range(len(cells)))
+    rng.shuffle(order)
+    rot = [rng.randrange(24) for _ in cells]
+    # often: corner 0 of A and of B on the side away from their common face (their first wire is then one they share
+    # with an un-chopped neighbour, not with each other)
+    for which, side in ((0, 0), (1, 1)):
+        if rng.random() < 0.7:
+            for _ in range(50):
+                c0 = block_corners({"blocks": []}, {"cell": cells[which], "rot": rot[which]})[0]
+                if c0[perm[0]] == cells[which][perm[0]] + side:
+                    break
+                rot[which] = rng.randrange(24)
+    for i, which in buddy.items():
+        if rng.random() < 0.6:
+            rot[i] = rot[which]  # numbered like the chopped block it leans on (its copied gradings are aligned)
+    blocks = [{"cell": cells[i], "rot": rot[i]} for i in order]
+    jit = {f"{i},{j},{k}": [rng.randint(-6, 6) / 64 for _ in range(3)] for i in range(dims[0] + 1) for j in range(dims[1] + 1) for k in range(dims[2] + 1)}
+    asm = {"blocks": blocks, "jitter": jit, "scale": [rng.choice([1.0, 2.0]) for _ in range(3)], "arcs": []}
+    pos = {tuple(b["cell"]): i for i, b in enumerate(blocks)}
+    fam_of, members = families(asm)
+    chops = []
+    done = set()
+    n = rng.randint(2, 8)
+    same = rng.random() < 0.25
+    for bi, blk in enumerate((pos[tuple(cells[0])], pos[tuple(cells[1])])):
+        a = next(a for a in range(3) if axis_direction(blocks[blk]["rot"], a)[0] == perm[1])
+        if bi == 0:
+            call = {"count": n}
+        elif same:  # the same count, another distribution
+            call = {"count": n, "total_expansion": rng.choice([2.0, 3.0])}
+        else:
+            call = {"count": n + rng.choice([1, 2, 5])}
+        chops.append({"block": blk, "axis": a, "calls": [call]})
+        done.add(fam_of[(blk, a)])
+    for f, mem in members.items():
+        if f not in done:
+            b, a = rng.choice(mem)
+            chops.append({"block": b, "axis": a, "calls": [{"count": rng.randint(2, 6)}]})
+    return {"kind": "pair_conflict", "asm": asm, "chops": chops}
+
+
+def gen_late(rng: random.Random, case: dict) -> None:
+    """Chops the user places on blocks of the assembled mesh (Block.chop) after the first two writes: the families
+    left without a chop get one, and sometimes a block whose count was copied gets a chop of its own (the same count,
+    or a conflicting one)."""
+    fam_of, members = families(case["asm"])
+    chopped = {}
+    for ch in case["chops"]:
+        chopped.setdefault(fam_of[(ch["block"], ch["axis"])], []).append(ch)
+    late = []
+    for f, mem in members.items():
+        if f not in chopped:
+            b, a = rng.choice(mem)
+            late.append({"block": b, "axis": a, "calls": [{"count": rng.randint(2, 7)}]})
+    taken = {(ch["block"], ch["axis"]) for ch in case["chops"]}
+    for f, chs in chopped.items():
+        free = [x for x in members[f] if x not in taken]
+        if free and rng.random() < 0.5 and all("count" in kw for ch in chs for kw in ch["calls"]):
+            b, a = rng.choice(free)
+            tot = sum(int(kw["count"]) for kw in chs[0]["calls"])
+            late.append({"block": b, "axis": a, "calls": [{"count": tot if rng.random() < 0.4 else tot + rng.choice([1, 2, 4])}]})
+    if late:
+        case["late"] = late
+
+
 def gen_case(rng: random.Random, max_blocks: int, mode: str) -> dict:
     """mode: well (one chopped axis per family) | under | conflict | double (two chopped axes, same count)."""
     if mode == "sandwich":
@@ -315,6 +413,8 @@ def gen_case(rng: random.Random, max_blocks: int, mode: str) -> dict:
         return gen_full(rng, max_blocks)
     if mode == "edge_conflict":
         return gen_edge_conflict(rng)
+    if mode == "pair_conflict":
+        return gen_pair_conflict(rng)
     asm = gen_assembly(rng, max_blocks)
     fam_of, members = families(asm)
     chops: List[dict] = []  # {"block","axis","calls":[kwargs…]}
@@ -345,11 +445,24 @@ def gen_case(rng: random.Random, max_blocks: int, mode: str) -> dict:
     case = {"kind": mode, "asm": asm, "chops": chops}
     if rng.random() < 0.25 and not asm.get("arcs"):
         case["stretch"] = [rng.randrange(3), rng.choice([0.5, 1.5, 2.5])]  # vertices moved between the two writes
+    if rng.random() < (0.6 if mode == "under" else 0.15):
+        gen_late(rng, case)
+    if rng.random() < 0.1 and len(asm["blocks"]) > 1:
+        # one block entered with corner coordinates that differ from its neighbours' by a little less than the merging
+        # tolerance along a space diagonal (rounded input): still the same vertices, still the same families
+        asm["noise"] = {"block": rng.randrange(len(asm["blocks"])),
+                        "delta": [[rng.choice([-1, 1]) * rng.choice([4.5e-8, 5e-8, 5.5e-8]) for _ in range(3)] for _ in range(8)]}
+    multi = [(i, ch) for i, ch in enumerate(chops) if len(ch["calls"]) >= 2 and all("length_ratio" in kw for kw in ch["calls"])]
+    if multi and rng.random() < 0.3:
+        # a typo in a later division of a multi-section chop: the first write raises from inside the grading of that
+        # axis, the caller corrects the Chop in place and writes again
+        i, ch = rng.choice(multi)
+        case["typo"] = {"chop": i, "call": rng.randrange(1, len(ch["calls"])), "length_ratio": rng.choice([50.0, -0.5, 0.0])}
     return case
 
 
 # ----------------------------------------------------------------------------------------- implementation
-def build_mesh(case: dict, order: Optional[List[int]] = None, rots: Optional[List[int]] = None):
+def build_mesh(case: dict, order: Optional[List[int]] = None, rots: Optional[List[int]] = None, with_typo: bool = False):
     import classy_blocks as cb
 
     asm = case["asm"]
@@ -370,6 +483,9 @@ def build_mesh(case: dict, order: Optional[List[int]] = None, rots: Optional[Lis
             blk["rot"] = rots[b]
         cs = block_corners(asm, blk)
         pts = [lattice_point(asm, c) for c in cs]
+        noise = asm.get("noise")
+        if noise and noise["block"] == b:
+            pts = [[x + d for x, d in zip(p, dl)] for p, dl in zip(pts, noise["delta"])]
         op = cb.Loft(cb.Face(pts[:4]), cb.Face(pts[4:]))
         for ai, arc in enumerate(asm.get("arcs", [])):
             if arc_owner.get(ai) != b:
@@ -389,8 +505,10 @@ def build_mesh(case: dict, order: Optional[List[int]] = None, rots: Optional[Lis
                         else:
                             op.top_face.add_edge((lo - 4) if hi - lo == 1 else 3, cb.Arc(mid))
         ops.append((b, op, blk))
+    typo = case.get("typo") if with_typo else None
+    fixes = []
     for b, op, blk in ops:
-        for ch in case["chops"]:
+        for ci, ch in enumerate(case["chops"]):
             if ch["block"] == b:
                 axis = ch["axis"]
                 if rots is not None:
@@ -399,9 +517,15 @@ def build_mesh(case: dict, order: Optional[List[int]] = None, rots: Optional[Lis
                     calls = remap_calls(asm["blocks"][b]["rot"], rots[b], ch["axis"], ch["calls"])
                 else:
                     calls = ch["calls"]
-                for kw in calls:
-                    op.chop(axis, **kw)
+                for ki, kw in enumerate(calls):
+                    if typo and typo["chop"] == ci and rots is None and typo["call"] == ki:
+                        op.chop(axis, **dict(kw, length_ratio=typo["length_ratio"]))
+                        fixes.append((op.chops[axis][-1], kw["length_ratio"]))
+                    else:
+                        op.chop(axis, **kw)
         mesh.add(op)
+    if with_typo:
+        return mesh, ops, fixes
     return mesh, ops
 
 
@@ -493,12 +617,29 @@ def parse_hex_lines(text: str) -> List[dict]:
 def run_write(case: dict, order=None, rots=None, timeout: float = 20.0) -> dict:
     """Writes the mesh with the public API; returns outcome + file text + internals read afterwards."""
     warnings.simplefilter("ignore")
-    mesh, ops = build_mesh(case, order, rots)
+    mesh, ops, fixes = build_mesh(case, order, rots, with_typo=True)
     tmp = tempfile.mkdtemp(prefix="cbv_prop_")
     path = os.path.join(tmp, "blockMeshDict")
     old = signal.signal(signal.SIGALRM, _alarm)
-    signal.setitimer(signal.ITIMER_REAL, timeout)
     res: Dict[str, Any] = {}
+    if fixes:
+        # the write with the typo: it has to be refused; then the caller corrects the Chop objects in place
+        signal.setitimer(signal.ITIMER_REAL, timeout)
+        try:
+            mesh.write(path)
+            res["typo_outcome"] = "ok"
+        except Hang:
+            res["typo_outcome"] = "hang"
+        except Exception as e:
+            res["typo_outcome"] = type(e).__name__
+        finally:
+            signal.setitimer(signal.ITIMER_REAL, 0)
+        res["typo_file_written"] = os.path.exists(path)
+        if os.path.exists(path):
+            os.remove(path)
+        for chop_obj, good in fixes:
+            chop_obj.length_ratio = good
+    signal.setitimer(signal.ITIMER_REAL, timeout)
     try:
         mesh.write(path)
         res["outcome"] = "ok"
@@ -543,9 +684,42 @@ def run_write(case: dict, order=None, rots=None, timeout: float = 20.0) -> dict:
             second["message"] = str(e)[:200]
         finally:
             signal.setitimer(signal.ITIMER_REAL, 0)
+    # chops placed on the blocks of the assembled mesh afterwards (Block.chop), then a third write
+    third: Dict[str, Any] = {}
+    if case.get("late") and res["outcome"] != "hang" and second.get("outcome") != "hang":
+        try:
+            from classy_blocks.grading.chop import Chop
+
+            pos_of = {b: i for i, (b, _, _) in enumerate(ops)}
+            for ch in case["late"]:
+                b = ch["block"]
+                if rots is not None:
+                    axis = remap_axis(case["asm"]["blocks"][b]["rot"], rots[b], ch["axis"])
+                    calls = remap_calls(case["asm"]["blocks"][b]["rot"], rots[b], ch["axis"], ch["calls"])
+                else:
+                    axis, calls = ch["axis"], ch["calls"]
+                for kw in calls:
+                    mesh.blocks[pos_of[b]].chop(axis, Chop(**kw))
+        except Exception as e:
+            third["late_error"] = repr(e)
+        path3 = os.path.join(tmp, "blockMeshDict.3")
+        signal.setitimer(signal.ITIMER_REAL, timeout)
+        try:
+            mesh.write(path3)
+            third["outcome"] = "ok"
+            third["text"] = open(path3).read()
+        except Hang:
+            third["outcome"] = "hang"
+        except Exception as e:
+            third["outcome"] = type(e).__name__
+            third["message"] = str(e)[:200]
+            third["file_written"] = os.path.exists(path3)
+        finally:
+            signal.setitimer(signal.ITIMER_REAL, 0)
     signal.signal(signal.SIGALRM, old)
     shutil.rmtree(tmp, ignore_errors=True)
     res["second"] = second
+    res["third"] = third
     res["order"] = [b for b, _, _ in ops]
     return res, mesh
 
@@ -748,6 +922,15 @@ def prepare(case: dict, order=None, rots=None):
     if sec.get("outcome") == "ok":
         obs["second"]["hex"] = parse_hex_lines(sec["text"])
         obs["second"]["same_text"] = sec["text"] == res.get("text")
+        if sec.get("stretched"):
+            obs["second"]["vertices"] = parse_vertices(sec["text"])
+    th = res.get("third", {})
+    if th:
+        obs["third"] = {k: th.get(k) for k in ("outcome", "message", "late_error", "file_written")}
+        if th.get("outcome") == "ok":
+            obs["third"]["hex"] = parse_hex_lines(th["text"])
+    if "typo_outcome" in res:
+        obs["typo"] = {"outcome": res["typo_outcome"], "file_written": res["typo_file_written"]}
     return obs
 
 
@@ -892,7 +1075,7 @@ def first_last_size(L: float, n: int, e: float) -> Tuple[float, float]:
     return s, s * e
 
 
-def oracle_preserve(case: dict, obs: dict) -> List[dict]:
+def oracle_preserve(case: dict, obs: dict, vertices: Optional[List[List[float]]] = None) -> List[dict]:
     """C04: a preserved first/last cell size is realised on every edge of the family, at the geometrically same end.
     Only checked for families with exactly one chopped axis whose chop is single-section."""
     out = []
@@ -948,7 +1131,10 @@ def oracle_preserve(case: dict, obs: dict) -> List[dict]:
             cs = block_corners(asm, asm["blocks"][b])
             p = AXIS_PAIRS[e["a"]][e["k"]]
             c0, c1 = cs[p[0]], cs[p[1]]
-            L = obs["internals"]["lens"][12 * e["b"] + 4 * e["a"] + e["k"]]  # curve length of the edge
+            if vertices is not None:  # straight edges, end points as written in this file
+                L = math.dist(vertices[e["v"][0]], vertices[e["v"][1]])
+            else:
+                L = obs["internals"]["lens"][12 * e["b"] + 4 * e["a"] + e["k"]]  # curve length of the edge
             first, last = first_last_size(L, e["count"], e["secs"][0][2])
             at_start_vertex = first if known[frozenset((c0, c1))] == c0 else last
             at_end_vertex = last if known[frozenset((c0, c1))] == c0 else first
@@ -965,11 +1151,12 @@ def oracle_preserve(case: dict, obs: dict) -> List[dict]:
     return out
 
 
-def expected_outcome(case: dict) -> str:
-    """ok | undefined | inconsistent | any — from the families and the user's chops alone."""
+def expected_outcome(case: dict, late: bool = False) -> str:
+    """ok | undefined | inconsistent | any — from the families and the user's chops alone
+    (`late`: with the chops placed on the assembled mesh after the second write)."""
     fam_of, members = families(case["asm"])
     chopped: Dict[int, List[dict]] = {}
-    for ch in case["chops"]:
+    for ch in case["chops"] + (case.get("late", []) if late else []):
         chopped.setdefault(fam_of[(ch["block"], ch["axis"])], []).append(ch)
     if any(f not in chopped for f in members):
         return "undefined"
@@ -1003,23 +1190,57 @@ def shrink_candidates(case: dict) -> List[dict]:
         for b in range(n):
             c = copy.deepcopy(case)
             del c["asm"]["blocks"][b]
-            chops = []
-            for ch in c["chops"]:
-                if ch["block"] == b:
+            for key in ("chops", "late"):
+                if key not in c:
                     continue
-                ch = dict(ch)
-                if ch["block"] > b:
-                    ch["block"] -= 1
-                chops.append(ch)
-            c["chops"] = chops
+                chops = []
+                for ci, ch in enumerate(c[key]):
+                    if ch["block"] == b:
+                        if key == "chops" and c.get("typo") and c["typo"]["chop"] == ci:
+                            del c["typo"]
+                        continue
+                    ch = dict(ch)
+                    if ch["block"] > b:
+                        ch["block"] -= 1
+                    if key == "chops" and c.get("typo") and c["typo"]["chop"] == ci:
+                        c["typo"] = dict(c["typo"], chop=len(chops), _moved=True)
+                    chops.append(ch)
+                c[key] = chops
+            if c.get("typo"):
+                if not c["typo"].pop("_moved", False):
+                    del c["typo"]
+            noise = c["asm"].get("noise")
+            if noise:
+                if noise["block"] == b:
+                    del c["asm"]["noise"]
+                elif noise["block"] > b:
+                    noise["block"] -= 1
             out.append(c)
     for i in range(len(case["chops"])):
         c = copy.deepcopy(case)
         del c["chops"][i]
+        if c.get("typo"):
+            if c["typo"]["chop"] == i:
+                del c["typo"]
+            elif c["typo"]["chop"] > i:
+                c["typo"]["chop"] -= 1
+        out.append(c)
+    for i in range(len(case.get("late", []))):
+        c = copy.deepcopy(case)
+        del c["late"][i]
         out.append(c)
     if asm.get("arcs"):
         c = copy.deepcopy(case)
         c["asm"]["arcs"] = []
+        out.append(c)
+    for key in ("late", "typo", "stretch"):
+        if case.get(key):
+            c = copy.deepcopy(case)
+            del c[key]
+            out.append(c)
+    if asm.get("noise"):
+        c = copy.deepcopy(case)
+        del c["asm"]["noise"]
         out.append(c)
     if any(any(v) for v in asm["jitter"].values()):
         c = copy.deepcopy(case)
@@ -1046,6 +1267,25 @@ def parse_vertices(text: str) -> List[List[float]]:
     return [[float(x) for x in m.groups()] for m in re.finditer(r"\(\s*(-?[0-9.eE+-]+) (-?[0-9.eE+-]+) (-?[0-9.eE+-]+)\)", sec)]
 
 
+def gen_stack_case(rng: random.Random) -> dict:
+    """A TransformedStack of translated and scaled tiers, chopped along the stack with ONE Stack.chop call: by count
+    and expansion, or by a cell size (then every tier — a family of its own — gets the count derived for its height)."""
+    end = rng.choice(["start_size", "end_size"])
+    if rng.random() < 0.5:
+        chop = {"count": rng.randint(4, 9), "c2c_expansion": rng.choice([0.85, 1.1, 1.2]), "preserve": end}
+    else:
+        chop = {end: rng.choice([0.04, 0.06, 0.09]), "c2c_expansion": rng.choice([1.0, 1.1]), "preserve": rng.choice([end, "c2c_expansion"])}
+    return {
+        "kind": "stack",
+        "nx": rng.randint(1, 3),
+        "ny": rng.randint(1, 2),
+        "tiers": rng.randint(2, 3),
+        "shift": [rng.choice([0.0, 0.2]), rng.choice([0.0, -0.1]), rng.choice([0.6, 1.0, 1.7])],
+        "scale": rng.choice([0.6, 0.8, 1.25, 1.5, 2.0]),
+        "chop": chop,
+    }
+
+
 def run_stack(case: dict) -> dict:
     """A TransformedStack of scaled tiers chopped with Stack.chop (one chop call for the whole stack) and a preserved
     first/last cell size; written twice.  Observation: vertices and hex lines of the file."""
@@ -1060,13 +1300,23 @@ def run_stack(case: dict) -> dict:
     stack.chop(**case["chop"])
     mesh = cb.Mesh()
     mesh.add(stack)
+    # the reference: the same chop placed on one operation of every tier, one call each
+    base2 = cb.Grid([0, 0, 0], [case["nx"] * 1.0, case["ny"] * 0.8, 0], case["nx"], case["ny"])
+    stack2 = cb.TransformedStack(base2, [cb.Translation(case["shift"]), cb.Scaling(case["scale"])], case["tiers"])
+    for op in stack2.shapes[0].operations:
+        op.chop(0, count=3)
+        op.chop(1, count=2)
+    for shape in stack2.shapes:
+        shape.operations[0].chop(2, **case["chop"])
+    mesh2 = cb.Mesh()
+    mesh2.add(stack2)
     tmp = tempfile.mkdtemp(prefix="cbv_stack_")
     res: Dict[str, Any] = {"ops_per_tier": case["nx"] * case["ny"]}
     try:
-        for k in ("first", "second"):
+        for k, m in (("first", mesh), ("second", mesh), ("reference", mesh2)):
             path = os.path.join(tmp, k)
             try:
-                mesh.write(path)
+                m.write(path)
                 text = open(path).read()
                 res[k] = {"outcome": "ok", "hex": parse_hex_lines(text), "vertices": parse_vertices(text)}
             except Exception as e:
@@ -1080,11 +1330,23 @@ def oracle_stack(case: dict, impl: dict) -> List[dict]:
     """Within every tier the preserved first (last) cell size is the same on every edge of the stacking direction."""
     out = []
     pres = case["chop"].get("preserve")
+    ref = impl.get("reference", {})
     for k in ("first", "second"):
         r = impl.get(k, {})
         if r.get("outcome") != "ok":
-            out.append({"site": f"Stack.chop:write-fails:{k}", "what": str(r)[:200]})
+            # (when the same chops placed operation by operation are refused as well — a preserved size that does not fit
+            # on a shorter edge of a strongly scaled tier — the refusal is not Stack.chop's doing)
+            if ref.get("outcome") == "ok":
+                out.append({"site": f"Stack.chop:write-fails:{k}", "what": str(r)[:200]})
             continue
+        # one count per tier (every block of a tier belongs to the family of the tier's chop) ...
+        for v in oracle_counts({"hex": r["hex"]}):
+            v["site"] = "Stack.chop:" + v["site"] + f":{k}-write"
+            out.append(v)
+        # ... and it is the count the same chop gives when placed on the operations one by one
+        if ref.get("outcome") == "ok" and [h["counts"] for h in r["hex"]] != [h["counts"] for h in ref["hex"]]:
+            out.append({"site": f"Stack.chop:counts-differ-from-per-operation-chops:{k}-write",
+                        "what": f"{[h['counts'] for h in r['hex']]} vs {[h['counts'] for h in ref['hex']]}"})
         per_tier: Dict[int, List[float]] = {}
         for b, hx in enumerate(r["hex"]):
             for kk, p in enumerate(AXIS_PAIRS[2]):
